@@ -115,11 +115,11 @@ impl Props {
                 self.update_from(entry, &path[(i + 1)..]);
             }
 
-            // extract direct prefixes
+            // extract direct prefixes, a prefix must end at a segment boundary
             for matching_key in map
                 .keys()
                 .filter_map(Value::as_str)
-                .filter(|k| k.starts_with(&key) && k.len() > key.len())
+                .filter(|k| k.starts_with(&key) && k[key.len()..].starts_with('.'))
             {
                 let Some(entry) = map.get(matching_key) else {
                     continue;
